@@ -507,6 +507,37 @@ fn live_tokio(tier: &str, seed: u64) -> Vec<Case> {
             }
             out.push(c);
         }
+        // ---- discovery whose application does not read the on_discovery channel (capacity 1): the listener may have
+        // to wait with its reports, but the shared store must stay usable (`get_known_services` returns)
+        {
+            let mut c = Case::oracle_only().tag("sockets-tokio").tag("tokio-discovery-full-channel");
+            let me = InstanceInformation::new("me2".to_string()).with_ip_address(IpAddr::V4(Ipv4Addr::new(127, 0, 0, 1))).with_port(8018);
+            let (dtx, _drx_kept) = tokio::sync::mpsc::channel::<InstanceInformation>(1);
+            match ServiceDiscovery::new_with_scope(me, "_verif14f._tcp.local", 60, Some(dtx), simple_mdns::NetworkScope::V4) {
+                Err(_) => { c = c.tag("sockets-not-exercised"); }
+                Ok(sd) => {
+                    let service = Name::new_unchecked("_verif14f._tcp.local");
+                    let announce = |label: &str| -> Vec<u8> {
+                        let full = mk_name(&[label.as_bytes().to_vec(), b"_verif14f".to_vec(), b"_tcp".to_vec(), b"local".to_vec()]);
+                        let mut p = Packet::new_reply(0);
+                        p.answers.push(ResourceRecord::new(service.clone(), CLASS::IN, 120, RData::PTR(PTR(full.clone()))));
+                        p.answers.push(ResourceRecord::new(full.clone(), CLASS::IN, 120, RData::SRV(simple_dns::rdata::SRV { priority: 0, weight: 0, port: 8019, target: full.clone() })));
+                        p.answers.push(ResourceRecord::new(full.clone(), CLASS::IN, 120, RData::A(A { address: 0x7F000003 })));
+                        p.build_bytes_vec_compressed().unwrap()
+                    };
+                    nap(200).await;
+                    let before = tokio::time::timeout(Duration::from_millis(1500), sd.get_known_services()).await.is_ok();
+                    for label in ["peer-a", "peer-b", "peer-c"] { let _ = sock.send_to(&announce(label), dest); nap(60).await; }
+                    nap(300).await;
+                    let after = tokio::time::timeout(Duration::from_millis(1500), sd.get_known_services()).await;
+                    if !before { c = c.tag("sockets-not-exercised"); }
+                    else if after.is_err() { c = c.fail("store-locked", "tokio flavour: with an unread on_discovery channel of capacity 1, get_known_services does not return within 1.5 s after three ordinary announcements (the listener waits for the channel while holding the store's write lock)".into()); }
+                    else { c = c.tag("sockets-alive"); }
+                    drop(_drx_kept);
+                }
+            }
+            out.push(c);
+        }
         // ---- resolver
         {
             let mut c = Case::oracle_only().tag("sockets-tokio").tag("tokio-resolver");
@@ -618,6 +649,33 @@ fn live_resolver(tier: &str, seed: u64) -> Case {
         }
         let _ = h2.join();
     }
+    // a query ends at its timeout however much unrelated traffic arrives meanwhile: other hosts' queries, 25 per second
+    // for 2.5 s, while a query with a 0.5 s timeout for a name nobody answers is pending
+    if let Ok(mut resolver) = OneShotMdnsResolver::new() {
+        resolver.set_query_timeout(Duration::from_millis(500));
+        let (tx, rx) = std::sync::mpsc::channel();
+        let t0 = std::time::Instant::now();
+        let h3 = std::thread::spawn(move || {
+            let _ = std::panic::catch_unwind(std::panic::AssertUnwindSafe(|| resolver.query_service_address("verif-nobody14._tcp.local")));
+            let _ = tx.send(t0.elapsed());
+        });
+        let mut q = Packet::new_query(0x7777);
+        q.questions.push(Question::new(Name::new_unchecked("someone-else._tcp.local"), TYPE::PTR.into(), CLASS::IN.into(), false));
+        let qb = q.build_bytes_vec().unwrap();
+        let flood_end = std::time::Instant::now() + Duration::from_millis(2500);
+        let mut took = None;
+        while std::time::Instant::now() < flood_end && took.is_none() {
+            let _ = sock.send_to(&qb, dest);
+            if let Ok(d) = rx.recv_timeout(Duration::from_millis(40)) { took = Some(d); }
+        }
+        let took = match took { Some(d) => Some(d), None => rx.recv_timeout(Duration::from_secs(6)).ok() };
+        match took {
+            Some(d) if d > Duration::from_millis(1600) => { c = c.fail("resolver-wedged", format!("a query with a 0.5 s timeout returned after {} ms: it does not time out while unrelated queries (25 per second) keep arriving", d.as_millis())); }
+            Some(_) => { c = c.tag("resolver-timeout-kept"); }
+            None => { c = c.fail("resolver-wedged", "a query with a 0.5 s timeout did not return within 8 s of unrelated traffic".into()); return c; }
+        }
+        let _ = h3.join();
+    }
     c
 }
 
@@ -683,6 +741,40 @@ fn live_discovery(tier: &str, seed: u64) -> Case {
     if poisoned { c = c.fail("discovery-store-unusable", format!("get_known_services panics after {} announcements: the listener died holding the store's lock", n)); }
     else if !found { c = c.fail("discovery-wedged", format!("an announcement sent after {} hostile ones is not discovered within 8 s", n)); }
     else { c = c.tag("sockets-alive"); }
+    c
+}
+
+/// a discoverer that starts after the advertiser's unsolicited announcements learns about it only from the answers
+/// to its own start-up query: an instance without a port (the quantifier's "0..n ports") must still be reported with
+/// its addresses
+fn live_late_joiner() -> Case {
+    use simple_mdns::sync_discovery::ServiceDiscovery;
+    use std::time::{Duration, Instant};
+    let mut c = Case::oracle_only().tag("sockets-late-joiner");
+    let res = std::panic::catch_unwind(|| -> std::result::Result<String, String> {
+        let adv = InstanceInformation::new("late-adv".to_string()).with_ip_address(IpAddr::V4(Ipv4Addr::new(10, 1, 2, 3))).with_attribute("k".to_string(), Some("v".to_string()));
+        let _sd_a = ServiceDiscovery::new(adv.clone(), "_verif15l._tcp.local", 60).map_err(|_| "not-exercised".to_string())?;
+        std::thread::sleep(Duration::from_millis(1700));
+        let watcher = InstanceInformation::new("late-watch".to_string()).with_ip_address(IpAddr::V4(Ipv4Addr::new(10, 1, 2, 4))).with_port(8201);
+        let sd_b = ServiceDiscovery::new(watcher, "_verif15l._tcp.local", 60).map_err(|_| "not-exercised".to_string())?;
+        let deadline = Instant::now() + Duration::from_millis(2500);
+        let mut last = None;
+        while Instant::now() < deadline {
+            std::thread::sleep(Duration::from_millis(150));
+            if let Some(i) = sd_b.get_known_services().into_iter().find(|i| i.unescaped_instance_name() == "late-adv") {
+                if i.ip_addresses == adv.ip_addresses && i.attributes == adv.attributes { return Ok("faithful".to_string()); }
+                last = Some(inst_text(&i, &i.unescaped_instance_name()));
+            }
+        }
+        match last { None => Ok("not-exercised".to_string()), Some(t) => Err(format!("an instance advertised with the address 10.1.2.3, the attribute k=v and no port is known to a discoverer that started 1.7 s later as {} (advertised {})", t, inst_text(&adv, "late-adv"))) }
+    });
+    match res {
+        Ok(Ok(s)) if s == "faithful" => { c = c.tag("sockets-alive"); }
+        Ok(Ok(_)) | Ok(Err(_)) if matches!(&res, Ok(Ok(_))) => { c = c.tag("sockets-not-exercised"); }
+        Ok(Err(m)) if m == "not-exercised" => { c = c.tag("sockets-not-exercised"); }
+        Ok(Err(m)) => { c = c.fail("discovery-differs", m); }
+        _ => { c = c.tag("sockets-not-exercised"); }
+    }
     c
 }
 
@@ -962,6 +1054,7 @@ pub fn c15(tier: &str, seed: u64) -> Vec<Case> {
         v.push(c);
     }
     v.push(live_pair());
+    v.push(live_late_joiner());
     // escaping then unescaping an instance name returns the original
     for _ in 0..(if thorough { 20000 } else { 2000 }) {
         let len = r.below(10) as usize;
